@@ -91,29 +91,63 @@ class Prob:
         return ae
 
 
-def family(rng):
+def family(rng, force=None):
     from scipy.sparse import csc_array, diags_array
     out = []
     for _ in range(1):
-        n = int(rng.integers(1, 9))
-        A = rng.normal(size=(n, n)) * 0.3
-        A += np.diag(2.0 + np.abs(A).sum(axis=1))
+        n = int(rng.integers(1, 9)) if force is None else int(rng.integers(2, 7))
+        # structure of the Jacobian: fully coupled, a permuted-diagonal one (decoupled equations written in another order
+        # than the unknowns they determine: exactly n structural non-zeros, none on the diagonal in general), or sparse coupling
+        structure = force or (str(rng.choice(["dense", "dense", "perm", "sparse"])) if n > 1 else "dense")
+        if structure == "dense":
+            A = rng.normal(size=(n, n)) * 0.3
+            A += np.diag(2.0 + np.abs(A).sum(axis=1))
+        elif structure == "perm":
+            perm = rng.permutation(n)
+            while n > 1 and np.all(perm == np.arange(n)):
+                perm = rng.permutation(n)
+            A = np.zeros((n, n))
+            A[np.arange(n), perm] = 1.5 + rng.random(n)
+        else:
+            A = np.diag(2.5 + rng.random(n))
+            for i in range(n):
+                j = int(rng.integers(0, n))
+                if j != i:
+                    A[i, j] = 0.4 * rng.normal()
+        pat = (A != 0)
         ys = rng.normal(size=n) * 2
         c = float(rng.choice([0.0, 0.1, 1.0]))
         k = float(rng.choice([0.0, 0.0, 0.5]))      # mildly non-smooth term k*|d|*d
+        if structure == "perm":
+            # non-linear terms follow the same permutation so that the equations stay decoupled
+            def F(y, A=A, ys=ys, c=c, k=k, perm=perm):
+                d = y - ys
+                return A @ d + (c * d ** 3 + k * np.abs(d) * d)[perm]
 
-        def F(y, A=A, ys=ys, c=c, k=k):
-            d = y - ys
-            return A @ d + c * d ** 3 + k * np.abs(d) * d
+            def J(y, A=A, ys=ys, c=c, k=k, perm=perm, n=n):
+                d = y - ys
+                M = A.copy()
+                M[np.arange(n), perm] += (3 * c * d ** 2 + 2 * k * np.abs(d))[perm]
+                return csc_array(M)
 
-        def J(y, A=A, ys=ys, c=c, k=k):
-            d = y - ys
-            return csc_array(A + np.diag(3 * c * d ** 2 + 2 * k * np.abs(d)))
+            def H(y, v, ys=ys, c=c, k=k, perm=perm, n=n):
+                d = y - ys
+                M = np.zeros((n, n))
+                M[np.arange(n), perm] = ((6 * c * d + 2 * k * np.sign(d)) * v)[perm]
+                return csc_array(M)
+        else:
+            def F(y, A=A, ys=ys, c=c, k=k):
+                d = y - ys
+                return A @ d + c * d ** 3 + k * np.abs(d) * d
 
-        def H(y, v, ys=ys, c=c, k=k):
-            d = y - ys
-            return csc_array(np.diag((6 * c * d + 2 * k * np.sign(d)) * v))
-        out.append(Prob(f"coupled n={n} c={c} k={k}", F, J, H, ys, n))
+            def J(y, A=A, ys=ys, c=c, k=k):
+                d = y - ys
+                return csc_array(A + np.diag(3 * c * d ** 2 + 2 * k * np.abs(d)))
+
+            def H(y, v, ys=ys, c=c, k=k):
+                d = y - ys
+                return csc_array(np.diag((6 * c * d + 2 * k * np.sign(d)) * v))
+        out.append(Prob(f"{structure} n={n} c={c} k={k}", F, J, H, ys, n))
     return out
 
 
@@ -188,8 +222,8 @@ def run(rep, tier, seed):
     solvers = dict(nr_method=nr_method, continuous_nr=continuous_nr, lm=lm, sicnm=sicnm)
     nfam = 6 if tier == "quick" else 60
     probs = special()
-    for _ in range(nfam):
-        probs += family(rng)
+    for i in range(nfam):
+        probs += family(rng, force={0: "perm", 1: "sparse"}.get(i))
     nruns = 0
     hist = dict(succeed_true=0, succeed_false=0, raised=0, nan_result=0, in_basin=0, far=0)
     for pr in probs:
